@@ -9,6 +9,11 @@ class NotConstructible(Exception):
     pass
 
 
+def _unescape(s):
+    import re
+    return re.sub(r'\\u\{([0-9a-fA-F]+)\}', lambda m: chr(int(m.group(1), 16)), s)
+
+
 def _ev(model, t):
     return model.eval(t, model_completion=True)
 
@@ -22,7 +27,7 @@ def scalar(model, v):
     if v.kind == BOOL:
         return z3.is_true(r)
     if v.kind == STR:
-        return r.as_string() if z3.is_string_value(r) else str(r)
+        return _unescape(r.as_string()) if z3.is_string_value(r) else str(r)
     if v.kind == REAL:
         try:
             f = r.as_fraction()
